@@ -45,7 +45,9 @@ func probeKF1() {
 }
 
 func TestC06Order(t *testing.T) {
-	probeKF1()
+	if EnvInt("VERIF_SHARD", 0) == 0 {
+		probeKF1()
+	}
 	rapid.Check(t, func(t *rapid.T) {
 		DefaultCheckOrder = true
 		DefaultPanicOnSelf = true
